@@ -82,7 +82,7 @@ pub fn e1_jobs(prop: &str, tier: Tier) -> (Vec<E1Job>, usize) {
         _ => vec![],
     };
     let fam_n = match prop {
-        "C01" | "C02" | "C04" | "C05" | "C10" | "C18" | "C20" | "C03" => fam,
+        "C01" | "C02" | "C04" | "C05" | "C10" | "C12" | "C13" | "C18" | "C20" | "C03" => fam,
         _ => 0,
     };
     (jobs, fam_n)
@@ -404,6 +404,13 @@ pub fn e2_jobs(prop: &str, tier: Tier) -> Vec<E2Job> {
     match prop {
         "C02" => {
             jobs.push(E2Job { label: "dependency plans (resource-less or one writer)".into(), scenarios: scen(&nores(if q { 3 } else { 4 }), &[Mode::Dispatch, Mode::Par, Mode::Async], &[1]), bounds: b(if q { 2 } else { 3 }), delay: false });
+            {
+                let grouped: Vec<Vec<Op>> = distinct_plans(&Profile::B { access: acc(&[(&[], &[]), (&[], &[0])]), times: vec![1, 2, 3], unnamed: true, dup: false, pairs: false }, 3, 2)
+                    .into_iter()
+                    .filter(|p| crate::obs::layout_of(p, &crate::hsys::Ctx::identity_map()).map_or(false, |l| l.stages.iter().flatten().any(|g| g.len() >= 2)))
+                    .collect();
+                jobs.push(E2Job { label: "dependency plans with groups of 2+ systems (running-time hints 1..3, unnamed systems)".into(), scenarios: scen(&grouped, &[Mode::Dispatch, Mode::Async], &[1]), bounds: b(if q { 1 } else { 2 }), delay: false });
+            }
             jobs.push(E2Job { label: "dependency plans, 2 dispatches".into(), scenarios: scen(&nores(3), &[Mode::Dispatch, Mode::Async], &[2]), bounds: b(if q { 1 } else { 2 }), delay: false });
         }
         "C03" => {
@@ -455,13 +462,37 @@ pub fn e2_jobs(prop: &str, tier: Tier) -> Vec<E2Job> {
             let depplans = |d| distinct_plans(&Profile::B { access: dep_acc.clone(), times: vec![3], unnamed: false, dup: false, pairs: false }, d, 1);
             jobs.push(E2Job { label: "dependency/access plans x every single panicking system x {fetch, run}, then a clean dispatch".into(), scenarios: panic_scen(&depplans(if q { 2 } else { 3 }), &[Mode::Dispatch, Mode::Seq], false), bounds: b(if q { 2 } else { 3 }), delay: false });
             jobs.push(E2Job { label: "3-op plans, single panicking system".into(), scenarios: panic_scen(&depplans(3).into_iter().filter(|p| p.len() == 3).collect::<Vec<_>>(), &[Mode::Dispatch], !q), bounds: b(if q { 1 } else { 2 }), delay: false });
+            {
+                // plans in which the balancing rule really forms groups of 2+ systems (running-time hints 1..3),
+                // so that a panicking system has later members of its own group behind it
+                let grouped: Vec<Vec<Op>> = distinct_plans(&Profile::B { access: acc(&[(&[], &[]), (&[], &[0])]), times: vec![1, 2, 3], unnamed: false, dup: false, pairs: false }, 3, 2)
+                    .into_iter()
+                    .filter(|p| crate::obs::layout_of(p, &crate::hsys::Ctx::identity_map()).map_or(false, |l| l.stages.iter().flatten().any(|g| g.len() >= 2)))
+                    .collect();
+                jobs.push(E2Job { label: "plans with groups of 2+ systems (running-time hints 1..3), every single panicking system".into(), scenarios: panic_scen(&grouped, &[Mode::Dispatch, Mode::Seq], false), bounds: b(if q { 1 } else { 2 }), delay: false });
+            }
             jobs.push(E2Job { label: "thread-local and batch plans, single panicking system (incl. inside batches, thread-local)".into(), scenarios: panic_scen(&[tl(2), eb(1)].concat(), &[Mode::Dispatch, Mode::Seq], !q), bounds: b(if q { 1 } else { 2 }), delay: false });
             if !q {
                 jobs.push(E2Job { label: "small batch plans with an outer system".into(), scenarios: panic_scen(&eb(2), &[Mode::Dispatch], false), bounds: b(1), delay: false });
             }
         }
         "C12" => {
-            jobs.push(E2Job { label: "thread-local plans, <= 2 ops".into(), scenarios: scen(&tl(2), &[Mode::Dispatch, Mode::Par, Mode::Seq, Mode::Async], &[1, 2]), bounds: b(if q { 2 } else { 3 }), delay: false });
+            jobs.push(E2Job { label: "thread-local plans, <= 2 ops".into(), scenarios: scen(&tl(2), &[Mode::Dispatch, Mode::Par, Mode::Seq, Mode::Async], &[1]), bounds: b(if q { 2 } else { 3 }), delay: false });
+            jobs.push(E2Job { label: "thread-local plans, <= 2 ops, 2 dispatches".into(), scenarios: scen(&tl(2), &[Mode::Dispatch, Mode::Async], &[2]), bounds: b(if q { 1 } else { 2 }), delay: false });
+            {
+                // more thread-local systems than the inline capacity of the list, next to two ordinary systems
+                let tlop = || Op::Tl(crate::spec::SysSpec { name: String::new(), reads: vec![], writes: vec![0], time: 3, deps: vec![] });
+                let mut plans = Vec::new();
+                for n in [5usize, 6] {
+                    let mut p: Vec<Op> = vec![Op::Sys(crate::spec::SysSpec { name: "a".into(), reads: vec![], writes: vec![1], time: 3, deps: vec![] })];
+                    for _ in 0..n {
+                        p.push(tlop());
+                    }
+                    p.push(Op::Sys(crate::spec::SysSpec { name: "b".into(), reads: vec![], writes: vec![], time: 3, deps: vec![] }));
+                    plans.push(p);
+                }
+                jobs.push(E2Job { label: "5-6 thread-local systems next to two ordinary ones".into(), scenarios: scen(&plans, &[Mode::Dispatch, Mode::Async], &[1, 2]), bounds: b(1), delay: false });
+            }
             jobs.push(E2Job { label: "thread-local plans, 3 ops".into(), scenarios: scen(&tl(3).into_iter().filter(|p| p.len() == 3).collect::<Vec<_>>(), &[Mode::Dispatch, Mode::Async], &[1]), bounds: b(if q { 1 } else { 2 }), delay: false });
             if !q {
                 jobs.push(E2Job { label: "thread-local plans, 4 ops".into(), scenarios: scen(&tl(4).into_iter().filter(|p| p.len() == 4).collect::<Vec<_>>(), &[Mode::Dispatch], &[1]), bounds: b(1), delay: false });
@@ -925,7 +956,8 @@ pub fn run_c08(tier: Tier, budget: Duration, frag: &mut Frag) {
 pub fn run_c17(tier: Tier, budget: Duration, frag: &mut Frag) {
     let q = tier == Tier::Quick;
     let t0 = Instant::now();
-    let depth = if q { 5 } else { 12 };
+    let depth = 12;
+    let _ = q;
     let (st, samples) = crate::c17::run(depth, t0 + budget, threads(), &mut frag.col);
     frag.parts.push(json!({
         "engine": "E3 histmc",
